@@ -331,6 +331,13 @@ def make_inputs(tier, rnd, exe):
                                 r = (swapped[:len(mdat)], r[1])
                 if r and r[0] not in (text, binary, swapped):
                     emit("%s_%s_m%d.nl" % (base, tagc, j), r[0], "mut", base)
+    # a few degenerate byte strings
+    edge = [b"", b"g", b"b", b"\0", b"g3 1 1 0\n", b"b3 1 1 0\n 1 0 0\n", b"g3 1 1 0\n" + b" 0\n" * 9, b"x" * 10,
+            b"g" + b"9" * 400 + b"\n", b"g3 1 1 0\n 1 0 0\n 0 0\n 0 0\n 0 0 0\n 0 0 0 1\n 0 0 0 0 0\n 0 0\n 0 0\n 0 0 0 0 0\n",
+            b"g3 1 1 0\n 1 0 0\n 0 0\n 0 0\n 0 0 0\n 0 0 0 1\n 0 0 0 0 0\n 0 0\n 0 0\n 0 0 0 0 0\nb\n3\n",
+            b"b3 1 1 0\n 1 0 0\n 0 0\n 0 0\n 0 0 0\n 0 0 1 1\n 0 0 0 0 0\n 0 0\n 0 0\n 0 0 0 0 0\nb3"]
+    for j, data in enumerate(edge):
+        emit("edge_%s_m%d.nl" % ("t" if data[:1] != b"b" else "b", j), data, "mut", "edge")
     return inputs, stats, exh, sim, len(bases)
 
 
@@ -396,6 +403,7 @@ def run(tier):
                 "text": data[:3000].decode("latin-1")}
 
     nread = nbad = states = trans = 0
+    callbacks = {}
     terminals = {}
     seen = set()
     for trace, lines, res in results:
@@ -405,6 +413,9 @@ def run(tier):
             if e["e"] == "Read":
                 nread += 1
                 seen.add(e["input"])
+                if e["handler"] == "rec":
+                    for ev in e["a"]:
+                        callbacks[ev["e"]] = callbacks.get(ev["e"], 0) + 1
                 t = e["a"][-1] if e["a"] else {"e": "none"}
                 k = t["e"] if t["e"] != "Throw" else t["kind"]
                 terminals[k] = terminals.get(k, 0) + 1
@@ -441,6 +452,10 @@ def run(tier):
         raise Broken("%d inputs were not read, e.g. %s" % (len(miss), miss[:3]))
     if terminals.get("EndInput", 0) == 0 or terminals.get("ReadError", 0) == 0 or terminals.get("BinaryReadError", 0) == 0:
         raise Broken("vacuous run: terminal events %s" % terminals)
+    spec_events = set(re.findall(r'e\.e = "(\w+)" ->', open(os.path.join(NL, "NLProtocol.tla")).read()))
+    unseen = sorted(spec_events - set(callbacks))
+    if unseen:
+        raise Broken("callbacks never observed in this run: %s" % unseen)
     v = Verdict(PID)
     for key in sorted(found):
         desc, payload, cnt = found[key]
@@ -453,7 +468,7 @@ def run(tier):
         "traces_validated_against_impl": 2 * nread,
         "samples": [{"input": sample["input"], "flags": sample["flags"], "events": sample["a"][-6:]}],
         "inputs": len(inputs), "inputs_by_role": stats, "base_models": nbases,
-        "read_configurations_per_input": 12, "terminal_events_memory_path": terminals,
+        "read_configurations_per_input": 12, "terminal_events_memory_path": terminals, "callbacks_observed": callbacks,
         "explanation": "valid NL files written by the real NLW2 writer from TLC-generated models (text, binary, byte-swapped), "
                        "padded to page size -1/0/+1, and seeded structure-aware mutations (truncation, hostile "
                        "counts/indices/opcodes/lengths, segment letters, NUL bytes, header numbers); each read from memory and "
